@@ -7,12 +7,15 @@
    of a forest the roots the generate workers produce are the forest's tries whatever the
    interleaving of their calls to the one shared parser.  The hypotheses `sp_heading = false`
    and the single unit of `spells` are exactly what the known findings K1 and K2 violate;
-   K1-K3 are discussed in DESIGN.md.  Not proved: the composition of (1) and (3) through the
-   grow stage into one statement about the bytes written. *)
+   K1-K3 are discussed in DESIGN.md.  (4) C10_massive_text composes (1) and (3): on a nil return
+   the text written is the rendering of a permutation of the forest's tries.  What remains
+   outside the theorems: that the grow and spread stages compute render_root of each root in
+   massive mode as in simple mode (same functions in the source; tied by the correspondence),
+   and the Go runtime. *)
 From Coq Require Import List Arith.
 From Coq Require Import Permutation.
-From GT Require Import Base.GoStr Md.Parser Tree.Tree Spec.Spec Spec.Spelling Conc.Splitter Proofs.SpelledTop
-  Proofs.SplitSchedule Proofs.MassiveFront.
+From GT Require Import Base.GoStr Md.Parser Tree.Tree Spec.Spec Spec.Classify Spec.Spelling Conc.Splitter Proofs.GenItems Proofs.SpelledTop
+  Proofs.SplitSchedule Proofs.MassiveFront Proofs.MassiveText.
 From GT Require Import Conc.Pipeline Conc.Instance Conc.InstanceCheck Proofs.PipeBlocks Proofs.PipeNoLeak Proofs.PipeComplete.
 Import ListNotations.
 
@@ -117,6 +120,67 @@ Theorem C10_front_end : forall sp f,
       Permutation (roots_of (map (fun j => block_result j (run_sched p0 sched)) order)) (map trie_of f).
 Proof. exact massive_front_end. Qed.
 Print Assumptions C10_front_end.
+
+(* THE TWO LAYERS COMPOSED, down to the text: for every heading-free spelling of a forest,
+   every interleaving of the generate workers' parse calls, and every schedule of a pipeline
+   whose items are the blocks that produced a root and whose locking sink writes the lines of
+   the rendering of each root: when the call returns nil, the text written (the log, each entry
+   read as that line of that root's rendering) is the rendering of a permutation of the
+   forest's tries -- a permutation of the per-root blocks of simple mode's output for the same
+   bytes (C01_text_rule), each block contiguous and intact, none missing, none twice *)
+Theorem C10_massive_text : forall bf sp f sched p s d,
+  spells sp f -> sp_heading sp = false ->
+  let bs := split_rows (map fst (sp_rows sp)) in
+  interleave bs sched ->
+  let res := fun j => block_result j (run_sched p0 sched) in
+  let txt := fun j => match res j with BRoot (Some t) => render_root bf t | _ => [] end in
+  p_items p = filter (fun j => has_root (res j)) (seq 0 (List.length bs)) ->
+  sinkd p = Some d -> d_lock d = true ->
+  (forall j, d_lines d j = List.length (lines_of (txt j))) ->
+  reach p s -> st_main s = Some None ->
+  exists f', Permutation f' (map trie_of f) /\ log_text txt (st_log s) = render bf f'.
+Proof. exact massive_text_is_block_permutation. Qed.
+Print Assumptions C10_massive_text.
+
+(* the hypotheses are satisfiable: a two-root heading-free spelling with a blank row, its blocks,
+   the sequential schedule, and the text-output instance of the CURRENT source with these items *)
+From Coq Require Import String.
+Definition s10 (x : string) : str := list_ascii_of_string x.
+Local Open Scope string_scope.
+Definition f10 : list tree := [T (s10 "r") [T (s10 "a") []]; T (s10 "q") []].
+Definition sp10 : spelling :=
+  {| sp_unit := USp 1; sp_heading := false;
+     sp_rows := [(s10 "- r", false); ([c_sp], true); (s10 "  * a", false); (s10 "+ q", false)];
+     sp_final_newline := true |}.
+Example C10_spells_nonvacuous :
+  spells sp10 f10 /\
+  split_rows (map fst (sp_rows sp10)) = [[s10 "- r"; [c_sp]; s10 "  * a"]; [s10 "+ q"]] /\
+  interleave (split_rows (map fst (sp_rows sp10))) (seq_sched (split_rows (map fst (sp_rows sp10)))) /\
+  filter (fun j => has_root (block_result j (run_sched p0 (seq_sched (split_rows (map fst (sp_rows sp10)))))))
+         (seq 0 2) = [0; 1] /\
+  match md_params SinkText false [0; 1] false false (fun _ => false) (fun _ => false) (fun _ => false) (fun j => 2 - j) with
+  | Some p => p_items p = [0; 1] /\ exists d, sinkd p = Some d /\ d_lock d = true /\ d_lines d 0 = 2 /\ d_lines d 1 = 1
+  | None => False
+  end.
+Proof.
+  split; [|split; [|split; [|split]]].
+  - unfold spells. split; [|split; [|split]].
+    + repeat constructor; cbn; try discriminate; intros; try discriminate.
+    + cbn [sp_rows sp_unit sp_heading map fst forest_items flat_map preorder_d f10 app tname].
+      apply rows_item; [refine (row_item (USp 1) false 1 (s10 "r") c_hy eq_refl _ _); [repeat constructor|intros; discriminate]|].
+      apply rows_blank; [reflexivity|].
+      apply rows_item; [refine (row_item (USp 1) false 2 (s10 "a") c_as eq_refl _ _); [repeat constructor|intros; discriminate]|].
+      apply rows_item; [refine (row_item (USp 1) false 1 (s10 "q") c_pl eq_refl _ _); [repeat constructor|intros; discriminate]|].
+      apply rows_nil.
+    + repeat constructor; cbn; try (intros [H|H]; try discriminate; repeat (destruct H as [H|H]; try discriminate); try contradiction); try discriminate; try reflexivity.
+    + intros H. discriminate H.
+  - vm_compute. reflexivity.
+  - apply interleave_seq_sched.
+  - vm_compute. reflexivity.
+  - destruct (md_params SinkText false [0; 1] false false (fun _ => false) (fun _ => false) (fun _ => false) (fun j => 2 - j)) as [p|] eqn:E;
+      [|vm_compute in E; discriminate].
+    vm_compute in E. inversion E. subst p. split; [reflexivity|]. eexists. repeat split; reflexivity.
+Qed.
 
 Example C10_nonvacuous :
   match md_params SinkText false [0; 1; 2] false false (fun _ => false) (fun _ => false) (fun _ => false) (fun i => S i) with
